@@ -104,6 +104,18 @@ func checkC08(c *ev.Ctx) {
 		matcher := r.Intn(2)
 		cfg := lzma.Writer2Config{Properties: &lzma.Properties{LC: pp[0], LP: pp[1], PB: r.Intn(5)},
 			DictCap: dictCaps[r.Intn(len(dictCaps))], BufSize: r.Pick(273, 274, 300, 4096, 65536), Matcher: lzma.MatchAlgorithm(matcher)}
+		if i%8 == 5 {
+			// any lc 0..8 / lp 0..4: only configurations the library's own Verify accepts are in
+			// the quantifier (for LZMA2 that must mean lc+lp <= 4)
+			cfg.Properties = &lzma.Properties{LC: r.Intn(9), LP: r.Intn(5), PB: r.Intn(5)}
+			pp = [2]int{cfg.Properties.LC, cfg.Properties.LP}
+			vc := cfg
+			if err := vc.Verify(); err != nil {
+				c.Count("configs_rejected_by_verify", 1)
+				return
+			}
+			c.Count("configs_from_full_lclp_space_accepted", 1)
+		}
 		special := 0
 		if i%25 < 4 {
 			special = i%25 + 0
